@@ -63,7 +63,27 @@ def gen_plan(seed):
     for i in range(nsess - 1):
         ops.append(gen_session(rng, est))
     ops.append({'uri': 'good', 'sync': rng.random() < 0.5, 'fail': None, 'close': None, 'final': True})
-    return {'seed': seed, 'scenario': 'lifecycle', 'knobs': knobs, 'device': dev, 'ops': ops}
+    # values that arrive twice while the parameter values are being downloaded: an application that asks for a value
+    # from its connected callback, and firmware that reports changed values on its own
+    knobs['extra_read_on_connected'] = rng.random() < 0.25
+    knobs['notify_during_download'] = rng.random() < 0.25
+    plan = {'seed': seed, 'scenario': 'lifecycle', 'knobs': knobs, 'device': dev, 'ops': ops}
+    if rng.random() < 0.12:
+        # the same history over the real radio driver stack (fake dongle, ESB/safelink peer) instead of SimLink
+        plan['scenario'] = 'lifecycle-radio'
+        plan['link'] = 'radio'
+        knobs['retries'] = rng.choice([10, 20, 40])
+        knobs['airtime'] = rng.choice([0.001, 0.002])
+        knobs['safelink'] = rng.random() < 0.8
+        small = wgen.gen_device(rng, n_log=rng.choice([1, 3]), n_param=rng.choice([1, 3, 5]), version=rng.choice([10, 5, 3]),
+                                mems=[[0x18, 32, None]] if rng.random() < 0.5 else [])
+        plan['device'] = small
+        for s_ in ops:
+            if s_.get('fail'):
+                s_['fail']['after'] = rng.choice([0, 1, 2, rng.randint(0, 30), rng.randint(0, 60)])
+            if s_['uri'] == 'raise':
+                s_['uri'] = 'unknown'
+    return plan
 
 
 def gen_session(rng, est):
@@ -131,10 +151,26 @@ def execute(ctx):
     from cflib.crazyflie.syncCrazyflie import SyncCrazyflie
     plan = ctx.plan
     sim = ctx.sim
-    w, devs = common.make_world(ctx, {'cf': plan['device']})
-    dev = devs['cf']
+    radio = plan.get('link') == 'radio'
+    if radio:
+        import cflib.crtp.radiodriver as rd
+        from world import gen as wgen2
+        from world.radiocf import RadioWorld
+        dev = wgen2.build_device(sim, plan['device'])
+        w = RadioWorld(sim, ctx.faults, dev, airtime=ctx.knobs.get('airtime', 0.002), safelink=ctx.knobs.get('safelink', True))
+        w.install()
+        rd.set_retries_before_disconnect(ctx.knobs.get('retries', 20))
+        rd.set_retries(1)
+        w.reject_connect = []
+    else:
+        w, devs = common.make_world(ctx, {'cf': plan['device']})
+        dev = devs['cf']
     hist = []
     w.hist = hist
+    ctx.uri_map = dict(URI)
+    if radio:
+        ctx.uri_map.update({'good': 'radio://0/80/2M/E7E7E7E7E7', 'nodevice': 'radio://0/81/2M/E7E7E7E7E7',
+                            'malformed': 'radio:/', 'raise': 'bogus://x'})
     state = {}
     ctx.pending = []
 
@@ -190,6 +226,17 @@ class Recorder2(common.Recorder):
         w = ts.wait_what
         idle = ts.state in ('new', 'done') or (ts.state == 'blocked' and (
             w == 'simlink-inbox' or (isinstance(w, tuple) and w[0] == 'sleep' and w[1] == 1)))
+        if not idle and ts.state == 'blocked':
+            # a real driver: idle means blocked inside the driver's receive_packet()
+            import sys
+            f = sys._current_frames().get(ts.os_ident)
+            while f is not None:
+                if f.f_code.co_name == 'receive_packet' and '/cflib/crtp/' in f.f_code.co_filename:
+                    idle = True
+                    break
+                if f.f_code.co_name == 'run' and f.f_code.co_filename.endswith('crazyflie/__init__.py'):
+                    break
+                f = f.f_back
         if not idle:
             self.note('teardown-during-dispatch', 'self' if self.ctx.sim.cur() is ts else 'other')
             self.ctx.probe('link torn down while the dispatcher was mid-dispatch')
@@ -200,6 +247,25 @@ class Recorder2(common.Recorder):
         if name in ('disconnected', 'connection_failed'):
             self.probe_dispatcher()
         if name == 'connected':
+            kn = ctx.knobs
+            if kn.get('extra_read_on_connected') and self.dev.param_toc and not self._stale():
+                p0 = self.dev.param_toc[0]
+                try:
+                    cf.param.request_param_update(p0.key())
+                    ctx.probe('parameter read requested from the connected callback')
+                except Exception:
+                    pass
+            if kn.get('notify_during_download') and self.dev.v2 and self.dev.param_toc and not self._stale():
+                dev = self.dev
+                n0 = sum(1 for e in self.hist if e[2] == 'fully_connected')
+
+                def note(k=[0]):
+                    if sum(1 for e in self.hist if e[2] == 'fully_connected') == n0 and k[0] < 40 and cf.link is not None:
+                        k[0] += 1
+                        dev.notify_param(0)
+                        ctx.sim.after(0.002, note)
+                ctx.sim.after(0.001, note)
+                ctx.probe('value-updated notifications during the value download')
             # clause 2: tables complete at the instant `connected` fires
             d = common.compare_log_toc(cf, self.dev) + common.compare_param_toc(cf, self.dev)
             if d and not self._stale():
@@ -230,7 +296,7 @@ def late(ctx, si, clause, sig, msg, detail=None):
 
 def run_session(ctx, w, dev, cf, rec, si, s, SyncCrazyflie):
     sim = ctx.sim
-    uri = URI[s['uri']]
+    uri = ctx.uri_map[s['uri']]
     if s['uri'] == 'raise':
         w.reject_connect.append('simulated driver failure in connect')
     if s.get('fail') and s['uri'] == 'good':
